@@ -56,8 +56,12 @@ Definition lease_expired (pol : policy) (now : Z) (t : sharetype) (l : lease) : 
 (* `if original_expiration_time > now: num_valid_leases_original += 1` *)
 Definition lease_valid_original (now : Z) (l : lease) : bool := now <? l_expiration l.
 
-(* A share file: present with its lease list (in file order), or unlinked. *)
-Inductive file_state := Present (ls : list lease) | Gone.
+(* A share file: present with its lease list (in file order), unlinked, or
+   unreadable: a numerically named file whose container cannot be parsed
+   (unknown version or magic, or shorter than the container header), for which
+   get_share_file / get_leases raise UnknownImmutableContainerVersionError,
+   UnknownMutableContainerVersionError or struct.error. *)
+Inductive file_state := Present (ls : list lease) | Gone | Unreadable.
 
 (* ShareFile.cancel_lease / MutableShareFile.cancel_lease: every lease whose
    cancel secret matches is removed; no match raises IndexError; when no lease
@@ -66,6 +70,7 @@ Inductive file_state := Present (ls : list lease) | Gone.
 Definition cancel_lease (secret : N) (st : file_state) : option file_state :=
   match st with
   | Gone => None
+  | Unreadable => None
   | Present ls =>
       if existsb (fun l => N.eqb (l_cancel l) secret) ls then
         match filter (fun l => negb (N.eqb (l_cancel l) secret)) ls with
@@ -118,10 +123,25 @@ Fixpoint process_bucket (pol : policy) (now : Z) (bk : bucket) : bucket * bool :
   | [] => ([], false)
   | (n, t, Gone) :: r =>
       let '(r', c) := process_bucket pol now r in ((n, t, Gone) :: r', c)
+  | (n, t, Unreadable) :: r =>
+      (* the three exception classes are caught: the share is appended to
+         state["cycle-to-date"]["corrupt-shares"], the file is left alone and
+         the loop goes on *)
+      let '(r', c) := process_bucket pol now r in ((n, t, Unreadable) :: r', c)
   | (n, t, Present ls) :: r =>
       let res := process_share pol now t ls in
       if sr_raised res then ((n, t, sr_state res) :: r, true)
       else let '(r', c) := process_bucket pol now r in ((n, t, sr_state res) :: r', c)
+  end.
+
+(* share numbers process_bucket appends to corrupt-shares (None: it raised) *)
+Fixpoint corrupt_shares (pol : policy) (now : Z) (bk : bucket) : option (list N) :=
+  match bk with
+  | [] => Some []
+  | (n, t, Gone) :: r => corrupt_shares pol now r
+  | (n, t, Unreadable) :: r => option_map (cons n) (corrupt_shares pol now r)
+  | (n, t, Present ls) :: r =>
+      if sr_raised (process_share pol now t ls) then None else corrupt_shares pol now r
   end.
 
 (* The crawl applied to one bucket directory (prefix index i, name b): every
@@ -212,6 +232,7 @@ Definition file_state_eqb (a b : file_state) : bool :=
   match a, b with
   | Gone, Gone => true
   | Present x, Present y => leases_eqb x y
+  | Unreadable, Unreadable => true
   | _, _ => false
   end.
 
@@ -255,3 +276,24 @@ Definition cycle_agrees (pol : policy) (now : Z) (xs : list (sharetype * list le
 Definition raise_agrees (pol : policy) (now : Z) (t : sharetype) (ls : list lease) (st : file_state) : bool :=
   let r := process_share pol now t ls in
   sr_raised r && file_state_eqb (sr_state r) st.
+
+(* driver term: one process_bucket call on a bucket with good and damaged share
+   files: the files afterwards, no exception, and the corrupt-shares entries *)
+Fixpoint bucket_eqb (a b : bucket) : bool :=
+  match a, b with
+  | [], [] => true
+  | (n, _, x) :: a', (m, _, y) :: b' => N.eqb n m && file_state_eqb x y && bucket_eqb a' b'
+  | _, _ => false
+  end.
+
+Fixpoint list_N_eqb' (a b : list N) : bool :=
+  match a, b with
+  | [], [] => true
+  | x :: a', y :: b' => N.eqb x y && list_N_eqb' a' b'
+  | _, _ => false
+  end.
+
+Definition bucket_agrees (pol : policy) (now : Z) (bk after : bucket) (corrupt : list N) : bool :=
+  let r := process_bucket pol now bk in
+  negb (snd r) && bucket_eqb (fst r) after &&
+  match corrupt_shares pol now bk with Some l => list_N_eqb' l corrupt | None => false end.
